@@ -67,6 +67,12 @@ def gen(seed, V, tier, index, bias=None):
                 evs.append(b)
                 pred.feed(b)
             e = burst[-1]
+        elif "calculator" in fams and rng.random() < 0.08:
+            burst = E.gen_relatives_burst(rng, V)
+            for b in burst[:-1]:
+                evs.append(b)
+                pred.feed(b)
+            e = burst[-1]
         evs.append(e)
         pred.feed(e)
         # retry fault: re-issue the same operation straight away
